@@ -1,5 +1,6 @@
 import XtModel.Lemmas.Chunker
 import XtModel.Lemmas.Output
+import XtModel.Lemmas.Guards
 
 /-!
 # C03 — Multi-document and multi-input output is the ordered concatenation
@@ -17,6 +18,10 @@ Part 2 (second section): `Translator` and the framing of the three streaming
 outputs over an arbitrary per-document behaviour of the serializer crates
 (`Model/Output.lean`).  Obligations: `translator_concat`, `translator_concat_calls`,
 `translator_concat_ok`, `json_frame_one_line_per_doc`, `yaml_frame`, `msgpack_frame`.
+
+Part 3: the read-length guards (proved in `Lemmas/Guards.lean`, shared with
+C04/C17): `copy_len_in_bounds`, `chunkreader_overreport_is_clean_panic`,
+`stash_cleared_on_success`, `chunker_stack_overreport`.
 -/
 namespace Xt.Props.C03
 open Xt.Chunker
@@ -407,6 +412,59 @@ example : splitLines (session exEnv .json Out.empty [⟨[[0x31], [0x32, 0x32]], 
   rw [json_frame_one_line_per_doc exEnv _ (by simp) (by simp [exEnv]) (by simp [exEnv])]
   decide
 
+/-! ## Part 3 — read-length guards (statements in `Lemmas/Guards.lean`) -/
+
+open Xt.Chunker in
+/-- For EVERY buffer size, stash and reader answer (error, honest count, count
+over-reported by any excess): a copy, when made, has a length within both
+buffers and `*size_read` equals it; otherwise nothing is copied or reported
+and the handler fails. -/
+theorem copy_len_in_bounds (degenerate : Bool) (size : Nat) (stash : Option Stash) (res : ReadRes) :
+    match (readHandler degenerate size stash res).copyLen with
+    | some n =>
+      n ≤ size ∧ (readHandler degenerate size stash res).bouncerLen = some size ∧
+      (readHandler degenerate size stash res).sizeRead = some n ∧
+      (readHandler degenerate size stash res).success = true
+    | none =>
+      (readHandler degenerate size stash res).sizeRead = none ∧
+      (readHandler degenerate size stash res).success = false :=
+  Guards.copy_len_in_bounds degenerate size stash res
+
+open Xt.Chunker in
+theorem overreport_is_stashed (size honest excess : Nat) (stash : Option Stash) (data : List Nat)
+    (h : size < honest + excess) :
+    (readHandler false size stash (.ok (honest + excess) data)).copyLen = none ∧
+    (readHandler false size stash (.ok (honest + excess) data)).stash = some .misbehaving ∧
+    (readHandler false size stash (.ok (honest + excess) data)).success = false :=
+  Guards.overreport_is_stashed size honest excess stash data h
+
+open Xt.Chunker in
+theorem chunkreader_overreport_is_clean_panic (r : Reader) (buf data : List Nat) (reported : Nat)
+    (h : buf.length < reported) :
+    r.read buf (.ok reported data) = .panic .readSlice :=
+  Guards.chunkreader_overreport_is_clean_panic r buf data reported h
+
+open Xt.Chunker in
+theorem stash_cleared_on_success (size : Nat) (stash : Option Stash) (res : ReadRes) :
+    ((readHandler false size stash res).success = true → (readHandler false size stash res).stash = none) ∧
+    ((readHandler false size stash res).success = false → (readHandler false size stash res).stash ≠ none) ∧
+    (readHandler true size stash res).stash = stash :=
+  Guards.stash_cleared_on_success size stash res
+
+open Xt.Chunker in
+theorem chunker_stack_overreport (size : Nat) (bouncer : List Nat) (stash : Option Stash) (r : Reader)
+    (reported : Nat) (data : List Nat) :
+    (size < reported →
+      handlerOverChunkReader size bouncer stash r (.ok reported data) = .panic .readSlice) ∧
+    (reported ≤ size → ∃ r', handlerOverChunkReader size bouncer stash r (.ok reported data)
+      = .ok (⟨some size, some reported, some reported, none, true⟩, r')) :=
+  Guards.chunker_stack_overreport size bouncer stash r reported data
+
+/-- Non-vacuity: libyaml's 16 KiB buffer, 3 bytes written, 16385 reported. -/
+example : (Xt.Chunker.readHandler false 16384 none (.ok 16385 [1, 2, 3])).stash = some .misbehaving := by decide
+example : (Xt.Chunker.Reader.read ⟨[], 0⟩ [0, 0, 0, 0] (.ok 5 [1, 2, 3])) = .panic .readSlice :=
+  Xt.Chunker.Guards.chunkreader_overreport_is_clean_panic _ _ _ _ (by decide)
+
 #print axioms chunker_partition
 #print axioms chunker_lag_one
 #print axioms chunker_buffer_bounded
@@ -421,5 +479,10 @@ example : splitLines (session exEnv .json Out.empty [⟨[[0x31], [0x32, 0x32]], 
 #print axioms json_frame_one_line_per_doc
 #print axioms yaml_frame
 #print axioms msgpack_frame
+#print axioms copy_len_in_bounds
+#print axioms overreport_is_stashed
+#print axioms chunkreader_overreport_is_clean_panic
+#print axioms stash_cleared_on_success
+#print axioms chunker_stack_overreport
 
 end Xt.Props.C03
